@@ -599,6 +599,11 @@ def _eq(left: object, right: object) -> bool:
     if isinstance(left, bool):
         return isinstance(right, bool) and left == right
 
+    if isinstance(left, list) and isinstance(right, list):
+        return len(left) == len(right) and all(
+            _eq(a, b) for a, b in zip(left, right)
+        )
+
     return left == right
 
 
@@ -632,6 +637,8 @@ def _contains(token: Token, left: object, right: object) -> bool:
         return False
     if isinstance(left, str):
         return str(right) in left
+    if isinstance(left, (list, tuple)):
+        return any(_eq(item, right) for item in left)
     if isinstance(left, Collection):
         return right in left
 
